@@ -289,6 +289,8 @@ def props_of(conj, sig, group):
         ps.add('C14')
         if str(sig.get('cfg', '')).startswith('async:'):
             ps.add('C15')
+        if sig.get('cfg') in ('mem', 'phys'):
+            ps.add('C02')     # both backends are judged by the same cursor machines
         if conj == 'nopanic':
             ps.add('C13')
         if conj == 'published' or op in ('write', 'flush', 'close_w', 'seek_w', 'open_append', 'open_create'):
